@@ -183,6 +183,11 @@ def check_bytes(case):
     cls.append("preimage" if preimage else "plain")
     if flag not in FLAGS:
         cls.append("nt:nonstandard-sighash-byte-00" if flag == 0 else "nt:nonstandard-sighash-byte")
+    if case.get("prime") and kind.startswith("pk-"):
+        # history: the same signature is first verified under the genuine key (both SEC1 forms) in the same process
+        cls.append("nt:after-verifying-under-genuine-key")
+        for c in (True, False):
+            attempt(bits.sig_verify, bytes(der.encode(*rs)) + bytes([flag & 0xFF]), ec.sec1_encode(ec.pub(d), c), bx(case["msg"]) + (flag.to_bytes(4, "little") if preimage else b""), msg_preimage=preimage)
     got = attempt(bits.sig_verify, sig, pkb, msg, msg_preimage=preimage)
     acc = got == "OK"
     if want:
@@ -310,6 +315,7 @@ def bytes_cases(draw):
         "msg": draw(st.binary(max_size=80)).hex(),
         "comp": draw(st.booleans()),
         "mut": m,
+        "prime": draw(st.booleans()),
     }
 
 
